@@ -141,6 +141,7 @@ def run_plugin_ex(
     options: List[str],
     want_descriptor: bool = False,
     timeout: float = 180.0,
+    named: Optional[List[str]] = None,
 ) -> PluginResult:
     tools = tools_dir()
     scratch = new_scratch()
@@ -174,7 +175,7 @@ def run_plugin_ex(
     if want_descriptor:
         ds = os.path.join(scratch, "descriptor_set.bin")
         cmd += ["--descriptor_set_out=" + ds, "--include_imports"]
-    cmd += sorted(protos)
+    cmd += sorted(named) if named else sorted(protos)
     try:
         cp = subprocess.run(cmd, cwd=cwd, env=env, capture_output=True, text=True, timeout=timeout)
         rc, err = cp.returncode, (cp.stdout or "") + (cp.stderr or "")
@@ -352,9 +353,28 @@ class File:
 class Schema:
     files: List[File] = field(default_factory=list)
     features: Dict[str, int] = field(default_factory=dict)
+    invocation: str = "all"      # which files are named on the protoc command line: "all" | "roots" (the others only via import)
 
     def protos(self) -> Dict[str, str]:
         return {f.name: emit_file(f) for f in self.files}
+
+    def roots(self) -> List[str]:
+        """files of the schema that no other file of the schema imports (naming them reaches every file)"""
+        imported = {i for f in self.files for i in f.imports}
+        return sorted(f.name for f in self.files if f.name not in imported)
+
+    def named(self) -> Optional[List[str]]:
+        if self.invocation == "roots":
+            r = self.roots()
+            return r or None
+        return None
+
+    def roots_only(self) -> Optional["Schema"]:
+        """the same schema compiled by naming only its root files; None if that is the same command line"""
+        r = self.roots()
+        if not r or len(r) == len(self.files):
+            return None
+        return Schema(files=self.files, features=dict(self.features, **{"invocation.roots_only": 1}), invocation="roots")
 
     def text(self, limit: int = 1500) -> str:
         t = "\n".join("// ---- %s\n%s" % (n, s) for n, s in self.protos().items())
@@ -1121,6 +1141,42 @@ def edge_schemas() -> List[Tuple[str, Schema]]:
                       Field("rts", 4, wkt("Timestamp"), "repeated"),
                       Field("rwr", 5, wkt("StringValue"), "repeated")]),
     ])
+    # several map fields in one message whose names are related (one a suffix of another on an underscore boundary,
+    # or equal once underscores / case are removed: protoc derives FooBarEntry / FoobarEntry, distinct nested types)
+    # with different key / value kinds, declared in both orders
+    mn = "edge.mapnames"
+    S("map-name-neighbours", mn, enums=[Enum("Hue", [("HUE_ZERO", 0), ("HUE_ONE", 1)])], msgs=[
+        Message("Item", [Field("n", 1, scalar("int32"))]),
+        Message("LongFirst", [Field("foo_bar", 1, scalar("int32"), "map", map_key="string"),
+                              Field("bar", 2, scalar("bool"), "map", map_key="int64"),
+                              Field("item_count", 3, TypeRef("message", "", mn, ("Item",)), "map", map_key="int32"),
+                              Field("count", 4, TypeRef("enum", "", mn, ("Hue",)), "map", map_key="string")]),
+        Message("ShortFirst", [Field("bar", 1, scalar("bool"), "map", map_key="int64"),
+                               Field("foo_bar", 2, scalar("int32"), "map", map_key="string"),
+                               Field("x_bar", 3, scalar("bytes"), "map", map_key="uint32")]),
+        Message("SameSquashed", [Field("foo_bar", 1, scalar("int32"), "map", map_key="string"),
+                                 Field("foobar", 2, scalar("bool"), "map", map_key="int64")]),
+        Message("SameSquashedRev", [Field("foobar", 1, scalar("bool"), "map", map_key="int64"),
+                                    Field("foo_bar", 2, scalar("int32"), "map", map_key="string"),
+                                    Field("fo_ob_ar", 3, scalar("double"), "map", map_key="sint32")]),
+    ])
+    # two packages in two files, the first using an enum, a nested enum and a message of the second in every position;
+    # only the first file is named on the protoc command line (the second is compiled because it is imported)
+    pa, pb = "edge.shop", "edge.shop.money"
+    out.append(("cross-file-roots-only", Schema(files=[
+        File(name="shop.proto", package=pa, imports=["money.proto"], messages=[
+            Message("Order", [Field("currency", 1, TypeRef("enum", "", pb, ("Currency",))),
+                              Field("rounding", 2, TypeRef("enum", "", pb, ("Price", "Rounding"))),
+                              Field("price", 3, TypeRef("message", "", pb, ("Price",))),
+                              Field("accepted", 4, TypeRef("enum", "", pb, ("Currency",)), "repeated"),
+                              Field("by_name", 5, TypeRef("enum", "", pb, ("Currency",)), "map", map_key="string"),
+                              Field("o_cur", 6, TypeRef("enum", "", pb, ("Currency",)), "optional"),
+                              Field("c_cur", 7, TypeRef("enum", "", pb, ("Currency",)), oneof="pay"),
+                              Field("c_price", 8, TypeRef("message", "", pb, ("Price",)), oneof="pay")])]),
+        File(name="money.proto", package=pb, enums=[Enum("Currency", [("CURRENCY_UNSPECIFIED", 0), ("CURRENCY_EUR", 1), ("CURRENCY_NEG", -2)])],
+             messages=[Message("Price", [Field("units", 1, scalar("int64")), Field("currency", 2, TypeRef("enum", "", pb, ("Currency",)))],
+                               enums=[Enum("Rounding", [("ROUNDING_NONE", 0), ("ROUNDING_UP", 1)])])]),
+    ], features={"edge.cross-file-roots-only": 1, "invocation.roots_only": 1}, invocation="roots")))
     # field names that differ only in case / underscores but are accepted by protoc
     S("field-recase-collision", "edge.fieldrecase", msgs=[
         Message("M", [Field("HTTPCode", 1, scalar("int32")), Field("http_code", 2, scalar("int32"))]),
